@@ -181,7 +181,12 @@ class GeminiClient:
 
         # Create protocol instance with normalized URL
         # Per spec: "client SHOULD add trailing '/' for empty paths"
-        protocol = GeminiClientProtocol(parsed.normalized, response_future)
+        # With TOFU the request is held back until the certificate is verified
+        protocol = GeminiClientProtocol(
+            parsed.normalized,
+            response_future,
+            send_on_connect=self.tofu_db is None,
+        )
 
         # Create connection using Protocol/Transport pattern
         try:
@@ -233,6 +238,9 @@ class GeminiClient:
                     elif message == "first_use":
                         # First time seeing this host - trust it
                         self.tofu_db.trust(parsed.hostname, parsed.port, cert)
+
+                # Certificate accepted: now the request may be sent
+                protocol.send_request()
 
             # Wait for response with timeout
             response: GeminiResponse = await asyncio.wait_for(
@@ -382,7 +390,13 @@ class GeminiClient:
         response_future: asyncio.Future = loop.create_future()
 
         # Create protocol instance
-        protocol = TitanClientProtocol(titan_url, content_bytes, response_future)
+        # With TOFU the upload is held back until the certificate is verified
+        protocol = TitanClientProtocol(
+            titan_url,
+            content_bytes,
+            response_future,
+            send_on_connect=self.tofu_db is None,
+        )
 
         # Create connection using Protocol/Transport pattern
         try:
@@ -434,6 +448,9 @@ class GeminiClient:
                     elif message == "first_use":
                         # First time seeing this host - trust it
                         self.tofu_db.trust(parsed.hostname, parsed.port, cert)
+
+                # Certificate accepted: now the request may be sent
+                protocol.send_request()
 
             # Wait for response with timeout
             response: GeminiResponse = await asyncio.wait_for(
